@@ -5,3 +5,4 @@
 
 pub mod cache;
 pub mod errs;
+pub mod nondet;
